@@ -1457,8 +1457,30 @@ def _build(vcfg, arrays=None):
                     telstate_hook=(c13cal.hooks(c13cal.cal_hook(vcfg['cal']), c13cal.l2_hook(vcfg['cal2']))
                                    if vcfg.get('cal2') else c13cal.cal_hook(vcfg['cal'])),
                     archived_override=['sdp_l0', 'cal'] + ([c13cal.L2_IMAGE_STREAM] if vcfg.get('cal2') else []),
-                    open_kwargs=dict(applycal=applycal), tmp=v4.scratch_dir('c13'))
+                    construct=False, tmp=v4.scratch_dir('c13'))
+    try:
+        x.d = _open_public(x, applycal=applycal)
+    except Exception:
+        v4.cleanup(x)
+        raise
     return x, bls
+
+
+def _open_public(x, **kw):
+    """The public entry point named by the property: katdal.open(<capture block>/<cbid>_<stream>.rdb, applycal=...,
+    preselect=...).  The telstate of the fixture is written next to its npy chunk store (once per case)."""
+    import os
+    import katdal
+    from katsdptelstate.rdb_writer import RDBWriter
+    rdb = os.path.join(x.tmp, x.cbid, '%s_%s.rdb' % (x.cbid, x.stream))
+    if not os.path.exists(rdb):
+        ts = x.telstate
+        ts['capture_block_id'] = x.cbid
+        ts['stream_name'] = x.stream
+        os.makedirs(os.path.dirname(rdb), exist_ok=True)
+        with RDBWriter(rdb) as writer:
+            writer.save(ts)
+    return katdal.open(rdb, **kw)
 
 
 def _read_corrections(d, name, inputs, T):
@@ -1607,7 +1629,7 @@ def run_v4(ctx, vcfg):
                              'a fully qualified request naming a product without solutions was accepted')
                 return
             d = x.d
-            raw = v4.reopen(x)
+            raw = _open_public(x)
             T, F = vcfg['T'], vcfg['F']
             inputs = sorted({i for cp in bls for i in cp})
             cal_freqs = {st: c13cal.cal_channel_freqs(c) for st, c in streams_of(vcfg).items()}
@@ -1736,10 +1758,9 @@ def run_preselected(ctx, vcfg, x, inputs, bls, cal_freqs, freqs, stored, full, w
     try:
         # the target of every loaded dump as THIS data set sees it (katdal aligns target changes with scan starts,
         # which may differ when only some dumps are loaded: an input of this property, not its subject)
-        targets_p = [int(v) for v in v4.reopen(x, dict(preselect=pk), dict(preselect=pk)).sensor[
-            'Observation/target_index']]
+        targets_p = [int(v) for v in _open_public(x, preselect=pk).sensor['Observation/target_index']]
         same_targets = [targets_p.index(v) for v in targets_p] == [targets[t0:t1].index(v) for v in targets[t0:t1]]
-        dp = v4.reopen(x, dict(preselect=pk), dict(preselect=pk, applycal=applycal))
+        dp = _open_public(x, preselect=pk, applycal=applycal)
         got = dict(vis=dp.vis[:], weights=dp.weights[:], flags=dp.raw_flags[:])
         products = list(dp.applycal_products)
         read = {name: _read_corrections(dp, name, inputs, t1 - t0) for name in products}
@@ -1862,7 +1883,7 @@ def run_invert(ctx, vcfg):
             pk = {k: slice(*v) for k, v in pre.items()}
             what = '+'.join(sorted(pre))
             try:
-                dp = v4.reopen(x, dict(preselect=pk), dict(preselect=pk, applycal=list(vcfg['applycal'])))
+                dp = _open_public(x, preselect=pk, applycal=list(vcfg['applycal']))
                 gotp = dp.vis[:].astype(np.complex128)
                 prods_ok = list(dp.applycal_products) == list(vcfg['applycal'])
             except Exception as e:
